@@ -55,6 +55,17 @@ Theorem C14_rebuild_exact : forall a k, wf a -> (sh a + k <= length (rchain a))%
   confirmed (mkAcct (rchain a) (sh a + k)) = skipn (length (pooled a) - k) (pooled a) ++ confirmed a.
 Proof. exact rebuild_exact. Qed.
 
+(* competing producers: the chain also sends an insert notification for a momentum the store did not apply (own momentum
+   inserted after a competing one for the same height). Measured against the store nothing got confirmed: the rebuild
+   cannot fail and leaves account, confirmed blocks and pool exactly as they were; any number of such notifications
+   anywhere in a history leaves no trace *)
+Theorem C14_unapplied_momentum_leaves_pool : forall a, wf a -> step a (OMomentum 0) = (a, ROk).
+Proof. exact unapplied_momentum_identity. Qed.
+
+Theorem C14_unapplied_momentums_no_trace : forall a n ops, wf a ->
+  run a (repeat (OMomentum 0) n ++ ops) = run a ops.
+Proof. exact unapplied_momentums_no_trace. Qed.
+
 (* momentum content: a prefix of the candidates, cut only at a batch boundary, at most MaxAccountBlocksInMomentum
    blocks, and maximal (the next complete batch would not fit) *)
 Theorem C14_filter_batches : forall blocks,
